@@ -635,6 +635,11 @@ func correspond(c *Ctx, emit func(string, string), w *workload, s, n int, mine [
 					size = r.End + 1
 				}
 			}
+			// the log only shows where the last range ended; the true size is a whole
+			// number of rows of the (possibly pixel-packed) image
+			if w.Kind == "lossless" && w.Spec.H > 0 && size%w.Spec.H != 0 {
+				size = (size/w.Spec.H + 1) * w.Spec.H
+			}
 			emit(fmt.Sprintf("hash %d %d", n, size), showRanges(inv))
 			emit(fmt.Sprintf("hashpar %d %d 0", n, size), "1")
 		}
@@ -644,6 +649,20 @@ func correspond(c *Ctx, emit func(string, string), w *workload, s, n int, mine [
 			for _, r := range inv {
 				if r.End > total {
 					total = r.End
+				}
+			}
+			// the log only shows where the last range ended; for the tile-row sites the
+			// true total is ceil(height / 2^bits) for some bits in 2..9
+			if (s == sPredictor || s == sCrossColor) && w.Kind == "lossless" {
+				best := -1
+				for b := 2; b <= 9; b++ {
+					t := (w.Spec.H + (1 << b) - 1) >> b
+					if t >= total && (best == -1 || t < best) {
+						best = t
+					}
+				}
+				if best > 0 {
+					total = best
 				}
 			}
 			emit(fmt.Sprintf("ceil %d %d", n, total), showRanges(inv))
